@@ -123,4 +123,20 @@ Exp2FlowBad(x) ==
           \cup (IF t.hi.k = "f" /\ t.lo.k = "f" /\ Valid(t) /\ DCmp(DAdd(Value(t), kd), Value(x)) = 0 THEN {} ELSE {<<"reduction_not_exact", x, k, t>>})
           \* 2^t stays inside [1/2, 2): |t| <= 1/2 + half an ulp of the high word of x
           \cup (IF t.hi.k = "f" /\ t.lo.k = "f" /\ DCmpAbs(Value(t), DAdd(DPow2(-1), DAbs(D(x.lo)))) <= 0 THEN {} ELSE {<<"reduced_argument_range", x, k, t>>})
+
+\* ---- src/functions/trigonometry.rs  asin: domain test, direct / complementary branch ------------------
+\* abs_val > 1.0 -> NAN; abs_val <= 0.5 -> restricted_asin(x); else pi/2 - 2 restricted_asin(sqrt((1 - |x|) / 2))
+AsinBranch(x) == LET a == AAbs(x) IN
+                 IF CmpTFW(a, One(FALSE)) = 1 THEN "nan" ELSE IF CmpTFW(a, HalfW) \in {-1, 0} THEN "direct" ELSE "compl"
+AsinBranchExact(v) == IF DCmpAbs(v, DOne) > 0 THEN "nan" ELSE IF DCmpAbs(v, DPow2(-1)) <= 0 THEN "direct" ELSE "compl"
+AsinComplArg(x) == ASqrt(ADivTF(ASubFT(One(FALSE), AAbs(x)), W2))
+AsinFlowBad(x) ==
+  (IF AsinBranch(x) = AsinBranchExact(Value(x)) THEN {} ELSE {<<"asin_branch", x, AsinBranch(x)>>})
+  \cup (IF AsinBranch(x) # "compl" THEN {}
+        ELSE LET t == AsinComplArg(x)
+                 want == DScale2(DSub(DOne, DAbs(Value(x))), -1)            \* (1 - |x|) / 2, exact
+             IN (IF Valid(t) /\ ~Value(t).neg /\ DCmp(Value(t), DPow2(-1)) <= 0 THEN {} ELSE {<<"asin_reduced_argument_range", x, t>>})
+                \* t^2 within 40 * 2^-2P relative of (1 - |x|)/2: the polynomial's argument is the intended one
+                \cup (IF Valid(t) /\ DCmpAbs(DSub(DSqr(Value(t)), want), DMul([neg |-> FALSE, mag |-> <<80>>, e |-> -2 * P], want)) <= 0
+                      THEN {} ELSE {<<"asin_reduced_argument_value", x, t>>}))
 =============================================================================
